@@ -11,8 +11,8 @@ PROP = Prop(
          "Set/Get/Keys calls on kotel.NewRecordCarrier(record), or by inject-shaped sequences (Sets of a key list, then Gets of the same keys); after every call the "
          "harness dumps record.Headers, Keys() and Get of every header key. `reset E` sends a record (with pre-existing, often clashing, headers) through the real "
          "kotel Tracer hooks with the W3C propagator: OnProduceRecordBuffered injects a span context given on the op line (noop provider: the context's own span; "
-         "SDK provider: a child span with deterministic ids), then either via=mem (header copy) or via=wire (kgo.ProduceSync -> kfake of this tree -> kgo.PollRecords "
-         "of a second client), then OnFetchRecordBuffered extracts; the extracted span context is read from the consumed record's context (noop) or from the parent "
+         "SDK provider: a child span with deterministic ids), then via=mem (header copy), via=wire (kgo.ProduceSync -> kfake of this tree -> kgo.PollRecords "
+         "of a second client) or via=cmp (as wire, on a compacted topic: the record shares its batch with a filler record that a later batch supersedes, kfake compacts and rewrites the batch from its decoded survivors, a fresh consumer reads the record back), then OnFetchRecordBuffered extracts; the extracted span context is read from the consumed record's context (noop) or from the parent "
          "handed to the SDK sampler. Thorough adds every header list of length <= 3 over 2 keys x {nil, empty, bytes} with Get/Set/Get/Keys of 3 keys. "
          "FETCHED records: `reset B` builds a partition response of one or two v2 record batches (2-6 records, 0-3 application headers each, ~30% of them under "
          "traceparent/tracestate, optional compression, optional fetch offset inside the response) and decodes it with kgo.ProcessFetchPartition of this tree; then "
